@@ -16,7 +16,7 @@ CALLS = {"open": "COpen", "open-malformed": "COpenMalformed", "data": "CData", "
 class C12(Prop):
     pid = "C12"
     props_file = "Props/C12.v"
-    model_targets = ["theories/Websockets/ShimCheck.vo"]
+    model_targets = ["theories/Websockets/ShimCheck.vo", "theories/Websockets/ShimTableCheck.vo"]
     technique = "Coq LTS of the shim handlers as interleavable programs: invariant proof that the guarded Close/Send never panic for any number of racing calls and any interleaving, computed witnesses for the repaired defects; exact sequential status semantics; bounded-exhaustive sequential runs and repeated concurrent runs of the real handlers under the race detector"
     level_text = ("C12_no_panic proves for any number of close and data calls racing on one session, any queue capacity and any interleaving of their atomic actions with the writer goroutine and the backend that the handlers never send on or close a closed channel; "
                   "C12_replies that every answer is 200 or 400; C12_bounded_work / C12_progress / C12_progress_when_backend_gone that the calls take a bounded number of actions in any interleaving and that an unanswered call can always take its next action unless it waits for room in a full queue whose writer can still take a message (no wedge caused by the handlers); C12_sharp_double_close / C12_sharp_data_vs_close are computed schedules on the model of the code before the repair that do panic. The real handlers are run on every call sequence up to length 3 (4 in the thorough tier) "
@@ -44,6 +44,10 @@ class C12(Prop):
         rc, out, p, dt = C.go_test_overlay(ctx.work, "./agent/websockets/", "TestVerifC12Shapes$", OVERLAY, "shapes.jsonl", ctx.seed, ctx.tier, timeout=600)
         obs["shapes"] = C.read_jsonl(p)
         obs["shapes_tail"] = out[-3000:]
+        rc, out, p, dt = C.go_test_overlay(ctx.work, "./agent/websockets/", "TestVerifC12Table$", OVERLAY, "table.jsonl", ctx.seed, ctx.tier, timeout=1800)
+        obs["table"] = [r for r in C.read_jsonl(p) if r.get("kind") == "table"]
+        if rc != 0 or not obs["table"]:
+            raise RuntimeError("C12 table harness did not run: rc=%s\n%s" % (rc, out[-2000:]))
         rc, out, p, dt = C.go_test_overlay(ctx.work, "./agent/websockets/", "TestVerifC12Batch$", OVERLAY, "batch.jsonl", ctx.seed, ctx.tier, timeout=600)
         obs["batch"] = C.read_jsonl(p)
         if rc != 0 or not obs["batch"]:
@@ -181,7 +185,48 @@ class C12(Prop):
             for i in C.parse_z_list(txt):
                 r = rows[s0 + i]
                 mism.append(("ShimCheck.seq_case_ok", "the statuses of a sequential call sequence differ from the model's", {"calls": r["ops"], "statuses": r["statuses"], "notes": r.get("notes")}))
-        return mism, len(items), {"coqc_s": round(dt_all, 2), "cases": len(items)}
+        # several sessions: statuses, session IDs, polled messages, what each backend received  vs  Websockets/ShimTable.v
+        def num(x):
+            return int(str(x)[1:]) if str(x)[:1] in ("m", "s") else int(x)
+        titems, trows = [], []
+        for r in obs.get("table") or []:
+            calls, outs, ok = [], [], True
+            for o in r.get("ops") or []:
+                k = o["op"]
+                try:
+                    if k == "open":
+                        calls.append("TOpen %s" % C.blit(o["dial_ok"]))
+                        outs.append("OOpened %d" % int(o["id"]) if o["status"] == 200 and o.get("id") else "OStatus %d" % o["status"])
+                    elif k == "data":
+                        calls.append("TData %s" % C.llit("(%d, %d)" % (int(e[0]), int(e[1])) for e in o["elems"]))
+                        outs.append("OStatus %d" % o["status"])
+                    elif k == "poll":
+                        calls.append("TPoll %d" % int(o["id"]))
+                        outs.append("OPolled %s" % C.llit(str(num(m)) for m in o.get("msgs") or []) if o["status"] == 200 else "OStatus %d" % o["status"])
+                    elif k == "close":
+                        calls.append("TClose %d" % int(o["id"]))
+                        outs.append("OStatus %d" % o["status"])
+                    elif k == "backend-send":
+                        calls.append("TBackendSend %d %d" % (int(o["id"]), int(o["msg"])))
+                        outs.append("ONone")
+                    elif k == "backend-close":
+                        calls.append("TBackendClose %d" % int(o["id"]))
+                        outs.append("ONone")
+                except (ValueError, TypeError):
+                    ok = False
+            if not ok:
+                continue
+            finals = C.llit("(%d, %s)" % (int(i), C.llit(str(num(m)) for m in (l or []))) for i, l in (r.get("backend_received") or {}).items())
+            titems.append("table_case %s %s %s" % (C.llit(calls), C.llit(outs), finals))
+            trows.append(r)
+        bad, tdt = C.eval_code_items(ctx.work, "cases_c12_table", ["From Coq Require Import ZArith List Bool Arith.", "From IP Require Import Websockets.ShimTable Websockets.ShimTableCheck Lib.Util.", "Import ListNotations."], titems, shard=300)
+        if bad is None:
+            return [("cases_c12_table.v (model evaluation)", "coqc failed: " + tdt[-800:], {})], len(items), {}
+        for idx, code in bad:
+            r = trows[idx]
+            what = "what a backend received differs from the model's" if code == 2 else "the answer to call %d (%s) differs from the model's" % (code - 10, (r["ops"][code - 10] if 0 <= code - 10 < len(r["ops"]) else "?"))
+            mism.append(("ShimTableCheck.table_case", "history over several sessions: " + what, {"history_index": r["index"], "ops": r["ops"][:60], "backend_received": r.get("backend_received")}))
+        return mism, len(items) + len(titems), {"coqc_s": round(dt_all + tdt, 2), "cases": len(items), "table_histories": len(titems), "table_calls": sum(len(r.get("ops") or []) for r in trows)}
 
     def coverage(self, ctx, obs):
         hist = collections.Counter()
